@@ -62,9 +62,17 @@ Theorem C08_fn_never_panics : forall is_letter is_digit marker names lines,
 Proof. exact fn_extract_never_panics. Qed.
 Print Assumptions C08_fn_never_panics.
 
+(* one value per considered line: when no names are requested, the only lines that yield nothing are
+   blank or do not begin with the marker (a tag with an empty name, "+=v", yields a value under "") *)
+Theorem C08_fn_every_considered_line_yields : forall is_letter is_digit marker line,
+  parse_fn_line is_letter is_digit marker [] line = LSkip ->
+  trim is_space line = [] \/ has_prefix marker (trim is_space line) = false.
+Proof. exact parse_fn_line_considered. Qed.
+Print Assumptions C08_fn_every_considered_line_yields.
+
 Theorem C08_fn_only_requested_names : forall is_letter is_digit marker names line t,
   parse_fn_line is_letter is_digit marker names line = LTag t ->
-  tname t <> [] /\ (names <> [] -> In (tname t) names).
+  names <> [] -> In (tname t) names.
 Proof. exact parse_fn_line_tag. Qed.
 Print Assumptions C08_fn_only_requested_names.
 
